@@ -53,7 +53,7 @@ func run(c *vf.Ctx) {
 			H:   vf.Pick[uint64](c, 8, 8), D: vf.Pick(c, 2, 2), K: vf.Pick(c, 1, 2), R: vf.Pick(c, 1, 1)}
 		if n == "v2-eph5" {
 			m.K = 1 // the extra network of the thorough tier: single-action blocks
-			m.H = 7
+			m.H = 6
 		}
 		if sp.Name == "mixed" {
 			m.SkipStart = 3
